@@ -3,11 +3,13 @@
 Only the property text and the scratch worktree are given (nothing from /verif)."""
 import json, sys
 pid = sys.argv[1]
-round2 = len(sys.argv) > 2 and sys.argv[2] == "2"
+round2 = len(sys.argv) > 2 and sys.argv[2] in ("2", "3")
+round3 = len(sys.argv) > 2 and sys.argv[2] == "3"
 p = [json.loads(l) for l in open('/verif/properties.jsonl') if json.loads(l)['id'] == pid][0]
-wt = f"/tmp/seed_{pid}"
+wt = f"/tmp/seed3_{pid}" if (len(sys.argv) > 2 and sys.argv[2] == "3") else f"/tmp/seed_{pid}"
+out = "/tmp/seed3_out" if (len(sys.argv) > 2 and sys.argv[2] == "3") else "/tmp/seed_out"
 tried = json.load(open("/root/work/tried.json")).get(pid, []) if round2 and __import__("os").path.exists("/root/work/tried.json") else []
-print(f"""You are testing how robust a Python library's guarantees are. The library is GemClus (scikit-learn-compatible discriminative clustering); a git worktree of it is at {wt} (work ONLY there; never touch /repo or /verif or any other directory except {wt} and /tmp/seed_out/{pid}). Run Python as `cd {wt} && /venv/bin/python ...` (the current directory comes first on sys.path, so `import gemclus` imports the worktree's copy). There is no network and nothing can be installed; there is no Cython, so changes to `gemclus/tree/_utils.pyx` have NO effect (the compiled .so in the worktree is what runs): change only .py files.
+print(f"""You are testing how robust a Python library's guarantees are. The library is GemClus (scikit-learn-compatible discriminative clustering); a git worktree of it is at {wt} (work ONLY there; never touch /repo or /verif or any other directory except {wt} and {out}/{pid}). Run Python as `cd {wt} && /venv/bin/python ...` (the current directory comes first on sys.path, so `import gemclus` imports the worktree's copy). There is no network and nothing can be installed; there is no Cython, so changes to `gemclus/tree/_utils.pyx` have NO effect (the compiled .so in the worktree is what runs): change only .py files.
 
 Here is a semantic property the library is supposed to satisfy:
 
@@ -17,9 +19,12 @@ It must hold: {p['quantifier']['text']}.
 
 Your task: produce TWO DIFFERENT realistic changes (bugs a maintainer could plausibly introduce during a refactoring or an optimisation) to the library's source, each of which BREAKS this property while (a) the package still imports and (b) the existing test suite still passes: run `cd {wt} && /venv/bin/python -m pytest -q -p no:cacheprovider gemclus/tests 2>&1 | tail -5` before your change to learn which tests pass on the unchanged tree (some tests fail already on the unchanged tree: those do not count; the full run takes ~3 minutes), and again with each change: no test that passed before may fail. Prefer changes that need something SPECIFIC to manifest — an unusual input (particular shapes, ties, duplicated values, non-contiguous indices, a particular hyper-parameter combination), a multi-step sequence of calls, or two cooperating sites that each look fine alone — not ones that ordinary use would expose at once. Each change should be small (a few lines).
 
-For each change i in {{1,2}} write into /tmp/seed_out/{pid}/change{{i}}/ : `patch.diff` (output of `git -C {wt} diff` with ONLY that change applied; make sure `git -C {wt} apply --check` would accept it on a clean tree), `demo.py` (a small self-contained program, run as `cd <tree> && /venv/bin/python /tmp/seed_out/{pid}/change{{i}}/demo.py`, that exits 0 on the unchanged tree and exits 1 printing what went wrong on the changed tree — it must import gemclus from the current directory: start it with `import sys, os; sys.path.insert(0, os.getcwd())` because an editable install of another copy exists), and `meta.json` with keys: property ("{pid}"), summary (one sentence: what was changed), needs (what is needed for the violation to manifest), files (list of changed files), tests_run (the pytest command and its last line before/after). After writing the files for change 1, restore the worktree (`git -C {wt} checkout -- .`) before making change 2, and leave the worktree clean at the end. Verify each demo yourself on both trees. Final message: a short summary of the two changes.""")
+For each change i in {{1,2}} write into {out}/{pid}/change{{i}}/ : `patch.diff` (output of `git -C {wt} diff` with ONLY that change applied; make sure `git -C {wt} apply --check` would accept it on a clean tree), `demo.py` (a small self-contained program, run as `cd <tree> && /venv/bin/python {out}/{pid}/change{{i}}/demo.py`, that exits 0 on the unchanged tree and exits 1 printing what went wrong on the changed tree — it must import gemclus from the current directory: start it with `import sys, os; sys.path.insert(0, os.getcwd())` because an editable install of another copy exists), and `meta.json` with keys: property ("{pid}"), summary (one sentence: what was changed), needs (what is needed for the violation to manifest), files (list of changed files), tests_run (the pytest command and its last line before/after). After writing the files for change 1, restore the worktree (`git -C {wt} checkout -- .`) before making change 2, and leave the worktree clean at the end. Never use `git stash` (the stash is shared with other worktrees of the same repository that other people are using right now). Verify each demo yourself on both trees. Final message: a short summary of the two changes.""")
 if tried:
     print("\nThese ideas were already used by someone else for this property — do something DIFFERENT (other code site, other mechanism):")
     for t in tried:
         print(" - " + t)
-    print("Prefer, this time, changes that involve TWO cooperating sites that each look fine alone, a multi-step sequence of public calls on one object, or an interaction between two hyper-parameters / features of the library. To keep the machine responsive run pytest with `OMP_NUM_THREADS=1 OPENBLAS_NUM_THREADS=1 MKL_NUM_THREADS=1` in front, run only the test files relevant to your change while iterating, and the full suite once per final change.")
+    if round3:
+        print("Earlier rounds concentrated on cached state across calls and on large refactorings. Prefer, this time, QUIET semantic slips at rarely exercised corners: an off-by-one or a strict/non-strict comparison at a boundary value; a configuration corner (solver='sgd' vs 'adam', ovo=True with exactly two clusters, batch_size equal to or larger than the number of samples, n_clusters equal to the number of samples, a kernel or metric given with parameters or as a callable, feature groups of size one, max_depth / max_leaf limits met simultaneously, verbose=True paths); an input-representation corner (float32, integer or boolean arrays, Fortran-ordered or non-contiguous views, read-only arrays, lists of lists, a single feature, a single sample per cluster, duplicated rows, constant columns, negative or huge values); an axis / transpose / broadcasting slip that is invisible for square or symmetric inputs; a wrong default resolved from None; numerically close but different formulas (mean vs sum, N vs N-1, missing factor in one branch only); an in-place operation on an argument or on a fitted attribute. The change must still look like something a maintainer would write. To keep the machine responsive run pytest with `OMP_NUM_THREADS=1 OPENBLAS_NUM_THREADS=1 MKL_NUM_THREADS=1` in front, run only the test files relevant to your change while iterating, and the full suite once per final change.")
+    else:
+      print("Prefer, this time, changes that involve TWO cooperating sites that each look fine alone, a multi-step sequence of public calls on one object, or an interaction between two hyper-parameters / features of the library. To keep the machine responsive run pytest with `OMP_NUM_THREADS=1 OPENBLAS_NUM_THREADS=1 MKL_NUM_THREADS=1` in front, run only the test files relevant to your change while iterating, and the full suite once per final change.")
